@@ -37,6 +37,7 @@ var c12PTypes = []c12PType{
 	{"a<n>", func(k int) bool { return k == aNumber || k == aNumArray }},
 	{"(sf)", func(k int) bool { return k == aString || k == aFunc }},
 	{"j", c12IsJSON},
+	{"(na)", func(k int) bool { return k == aNumber || k == aNumArray || k == aStrArray }}, // a union does not force scalars into arrays
 	{"o", func(k int) bool { return k == aObject }},
 	{"a", func(k int) bool { return true }}, // a scalar is forced into a one-member array
 	{"b", func(k int) bool { return k == aBool }},
@@ -44,6 +45,7 @@ var c12PTypes = []c12PType{
 	{"x", func(k int) bool { return true }},
 	{"a<s>", func(k int) bool { return k == aString || k == aStrArray }},
 	{"(ns)", func(k int) bool { return k == aNumber || k == aString }},
+	{"(sa)", func(k int) bool { return k == aString || k == aNumArray || k == aStrArray }},
 }
 
 var c12Opts = []string{"", "?", "+", "-"}
